@@ -59,7 +59,7 @@ impl Query for SelectEdgeCountQuery {
 
         for id in db_ids {
             let edge_count = db.edge_count(id, self.from, self.to)?;
-            total_count += edge_count;
+            total_count = total_count.saturating_add(edge_count);
             result.elements.push(DbElement {
                 id,
                 from: db.from_id(id)?,
